@@ -156,7 +156,7 @@ package statedb
 //@ func TableMeta.tableEntry
 //@   trusted
 //@   pure
-//@   ensures result != nil
+//@   ensures result != nil && !result.locked
 //@ func TableMeta.sortableMutex
 //@   trusted
 //@   pure
@@ -186,6 +186,8 @@ package statedb
 //@   ensures @takes-no-table-locks unchanged(GH_smus)
 //@   atcall Load@1 requires @load-under-mu GH_held[addr(db.mu)]
 //@   atcall Store@1 requires @store-under-mu GH_held[addr(db.mu)]
+//@   aftercall Load@1 assume forall p int :: 0 <= p && p < len(*result) ==> !(*result)[p].locked
+//@   atcall Store@1 requires @published-entries-are-unlocked forall p int :: 0 <= p && p < len(root) ==> !root[p].locked
 //@   ensures @unlocked !GH_held[addr(db.mu)]
 //@   ensures @one-store result == nil ==> GH_stores[addr(db.root)] == old(GH_stores)[addr(db.root)] + 1
 //@   ensures @no-store-on-error result != nil ==> GH_stores[addr(db.root)] == old(GH_stores)[addr(db.root)]
@@ -235,6 +237,10 @@ package statedb
 //@   requires handle.writeTxnState != nil ==> (forall p int :: 0 <= p && p < len(handle.writeTxnState.tableEntries) ==> handle.writeTxnState.tableEntries[p] != nil)
 //@   atcall (*Pointer).Load@1 requires @load-under-mu GH_held[addr(db.mu)]
 //@   aftercall (*Pointer).Load@1 assume arr(*result) != arr(txn.tableEntries)
+//@   aftercall (*Pointer).Load@1 assume forall p int :: 0 <= p && p < len(*result) ==> !(*result)[p].locked
+//@   loop 3 invariant @current-root-stays-unlocked forall p int :: 0 <= p && p < len(currentRoot) ==> !currentRoot[p].locked
+//@   loop 3 invariant @merge-done-released forall p int :: 0 <= p && p < $i ==> !root[p].locked
+//@   atcall (*Pointer).Store@1 requires @published-entries-are-unlocked forall p int :: 0 <= p && p < len(root) ==> !root[p].locked
 //@   loop 3 invariant @merge-root-is-clone root == old(handle.writeTxnState.tableEntries)
 //@   loop 3 invariant @merge-range 0 <= $i && $i <= len(old(handle.writeTxnState.tableEntries))
 //@   loop 3 invariant @merge-done-locked forall p int :: 0 <= p && p < $i && old(handle.writeTxnState.tableEntries[p].locked) ==> root[p] == old(handle.writeTxnState.tableEntries[p])
@@ -368,11 +374,7 @@ package statedb
 
 //@ func (*writeTxnState).indexWriteTxn
 //@   inline
-//@ func (*writeTxnState).indexReadTxn
-//@   inline
 //@ func (*writeTxnState).mustIndexWriteTxn
-//@   inline
-//@ func (*writeTxnState).mustIndexReadTxn
 //@   inline
 
 // modify (Insert / InsertWatch / Modify / CompareAndSwap):
@@ -908,6 +910,7 @@ package statedb
 // that name, and internal positions (below the primary) are only reachable with a '_' name.
 //@ func (*genTable).indexPos
 //@   property C04 C11 C18
+//@   pure
 //@   flag nosafety
 //@   maypanic
 //@   requires t != nil
@@ -1176,3 +1179,38 @@ package statedb
 //@   requires it != nil
 //@   ensureslocal @only-keys-at-or-above-the-search-key ok ==> !bytesLess(secondary, it.searchKey) && k == key
 //@   loop 1 backedge @skips-only-keys-below-or-seen-before bytesLess(secondary, it.searchKey) || found
+
+// A write transaction reads every table - locked by it or not - from the entries it captured
+// when it was opened (its own working copies for the tables it locked).
+//@ func (*writeTxnState).indexReadTxn returns (ix, err)
+//@   property C01 C02 C09 C04 C03
+//@   flag nosafety
+//@   maypanic
+//@   requires txn != nil
+//@   ensures @index-of-the-transactions-own-entries tposOf(meta) >= 0 ==> err == nil && ix == txn.tableEntries[tposOf(meta)].indexes[indexPos]
+//@   ensures @unregistered-table-is-an-error tposOf(meta) < 0 ==> err != nil
+//@ func (*writeTxnState).mustIndexReadTxn
+//@   property C01 C02 C09 C04 C03
+//@   flag nosafety
+//@   maypanic
+//@   requires txn != nil
+//@   ensures @index-of-the-transactions-own-entries result == txn.tableEntries[tposOf(meta)].indexes[indexPos]
+//@ func readTxn.mustIndexReadTxn
+//@   property C01 C02 C09 C04
+//@   flag nosafety
+//@   maypanic
+//@   ensures @index-of-the-frozen-root result == r[tposOf(meta)].indexes[indexPos]
+
+//@ func Indexer.newTableIndex
+//@   trusted
+//@   ensures onlyFresh()
+// A freshly built table entry: unlocked, revision zero, no pending initializers, and its
+// primary, revision and graveyard indexes in their fixed positions.
+//@ func (*genTable).tableEntry
+//@   property C02 C03 C05 C19
+//@   flag nosafety
+//@   maypanic
+//@   flag assumepre=index-positions-were-assigned-by-NewTable
+//@   flag dyncall.newTableIndex=pure
+//@   requires t != nil
+//@   ensures @fresh-unlocked-entry fresh(result) && !result.locked && result.revision == 0 && result.init == nil && unboxptr(result.meta) == t
